@@ -10,7 +10,7 @@ COMP = {"A": "T", "C": "G", "G": "C", "T": "A"}
 
 
 def gen_gene(r, name="GEN", pseudogene=None, n_exons=None, n_alleles=None, fusions=None, deletion=None, custom=None,
-             cigar_indels=False, same_strand=False, allow_mnp=True):
+             cigar_indels=False, same_strand=False, allow_mnp=True, offsets=(100000000, 200000000)):
     pseudogene = r.random() < 0.6 if pseudogene is None else pseudogene
     n_exons = n_exons or r.randint(2, 4)
     lens = {"up": r.randint(5, 12)}
@@ -35,7 +35,7 @@ def gen_gene(r, name="GEN", pseudogene=None, n_exons=None, n_alleles=None, fusio
         x += lens[n]
     exons = [[off_gene + ref_regions[f"e{e}"][0], off_gene + ref_regions[f"e{e}"][1]] for e in range(1, n_exons + 1)]
 
-    S19, S38 = 100000000, 200000000
+    S19, S38 = offsets
     regions19, regions38 = {}, {}
     for n in order:
         if n[0] == "i":
